@@ -18,7 +18,7 @@ ASSUMPTIONS = [
     "timer granularity: the txaio batched timer rounds deadlines up to 0.2 s buckets; 'in bounded time' is asserted with that slack (+0.25 s)",
 ]
 BOUNDS = {
-    "quick": "event sequences of length 3 when the first event starts closing (local close / peer close / peer violation), length 2 otherwise, over 10 event kinds (local sendClose with free 16-bit code and 4 reason shapes, local send/ping, peer close with free 16-bit status + free reason octet / empty / 1-octet, peer data, peer ping, peer violation, fire next timer, peer TCP drop, delivery of our own drop), both roles, failByDrop on/off, echoCloseCodeReason on/off; encode_truncate: all strings of <= 3 free code points (0..0x10FFFF) with every limit 0..12, plus a 121-octet ASCII prefix with limit 123",
+    "quick": "event sequences of length 3 when the first event starts closing (local close / peer close / peer violation), length 2 otherwise, over 10 event kinds (local sendClose with free 16-bit code and 4 reason shapes, local send/ping, peer close with free 16-bit status + free reason octet / empty / 1-octet, peer data, peer ping, peer violation, fire next timer, peer TCP drop, delivery of our own drop), both roles, failByDrop on/off, echoCloseCodeReason on/off; encode_truncate: all strings of <= 3 free code points (0..0x10FFFF) with every limit 0..12, plus a 121-octet ASCII prefix with limit 123; 'tick' (0.75 s pass without landing on a deadline) and 'layerFail' (an upper layer fails the connection with a reason of 0/120..123/200 ASCII octets + a free code point) events in dedicated units (tick/, layerfail/); asyncio adapter on a virtual-time loop (aio/ units, sequences of 2)",
     "thorough": "sequences of length <= 4, closeHandshakeTimeout/serverConnectionDropTimeout in {0,1,2}; encode_truncate <= 4 code points",
 }
 EXPECT_COVERS = ["fail:layer", "end:clean", "end:unclean", "close:local", "close:peer", "timer:fired", "trunc:cut", "trunc:whole"]
